@@ -40,6 +40,7 @@ impl BusyWait {
     /// strategy: every look at the cell) count it, and after W_RELEASE_AT pauses make the condition true
     pub(crate) unsafe fn vf_pause(kind: u8, addr: usize) {
         let is_pause = match rt::ENV_MODE {
+            106 => kind == K_LOCK,
             100 => kind == K_YIELD || kind == K_CONDWAIT,
             _ => kind == K_LOAD && addr == W_CELL,
         };
@@ -126,6 +127,38 @@ mod proofs {
         unsafe {
             run_wait(&wt, false);
             assert!(!wt.lock.is_held(), "C08: the strategy's lock is released on return");
+        }
+    }
+
+    /// W3c: no lost wake-up: the value arrives after the spinning but exactly when the waiter takes its
+    /// lock; the test made UNDER the lock must see it, so the waiter never reaches the condition variable
+    #[kani::proof]
+    #[kani::unwind(5)]
+    fn w3_blocking_wait_flip_at_lock() {
+        let sf: usize = kani::any();
+        let sy: usize = kani::any();
+        kani::assume(sf <= 1 && sy <= 1);
+        let wt = BlockingWait::with_spins(sf, sy);
+        let seq: usize = kani::any();
+        kani::assume(seq < (1usize << 62));
+        let stale: usize = kani::any();
+        kani::assume(stale == usize::MAX || (stale < seq && seq - stale <= 8));
+        let at = AtomicUsize::new(stale);
+        let wc = AtomicUsize::new(1);
+        unsafe {
+            W_CELL = &at as *const AtomicUsize as usize;
+            W_WC = &wc as *const AtomicUsize as usize;
+            W_SEQ = seq;
+            W_PAUSES = 0;
+            W_RELEASE_AT = 1;
+            W_BY_END = kani::any();
+            rt::CONDVAR_WAITS = 0;
+            rt::ENV_MODE = 106; // pause = the waiter takes its lock
+            wt.wait(seq, &at, &wc);
+            rt::ENV_MODE = 0;
+            assert!(spec_check(seq, at.peek(), wc.peek()));
+            assert!(rt::CONDVAR_WAITS == 0, "C08: the wake-up test must be repeated under the strategy's lock before sleeping (lost wake-up)");
+            assert!(!wt.lock.is_held());
         }
     }
 
